@@ -1,0 +1,163 @@
+//go:build verif
+
+// Contracts for the verifier in /verif (comment-only file; contributes no declarations).
+package streamfilter
+
+// The filter of a flow is the configured *streamconfig.Filter (the only FilterI implementation); it is immutable here.
+//@ devirtall FilterI => *Filter
+//@ pure FlowI.GetFilter
+//@ pure FlowI.IsUserFlow
+//@ pure FlowI.GetName
+//@ pure APIStreamI.GetMethod
+//@ pure APIStreamI.GetType
+//@ pure APIStreamI.GetResponse
+//@ pure APIStreamI.GetRequest
+//@ pure TransactionI.GetStatus
+//@ pure TransactionI.DoesQueryParamExist
+//@ pure TransactionI.DoesQueryParamValueMatch
+//@ pure APIStreamI.DoesHeaderValueMatch
+//@ pure APIStreamI.GetID
+//@ pure KeyValue.GetParamValue
+//@ pure ParamValue.GetString
+//@ pure APIStreamI.JSONPathQuery
+
+// math/rand: an arbitrary number, no effect on the program's state
+//@ extern rand.Float64
+//@   modifies nothing
+
+//@ ghost func flt(flow internaltypes.FlowI) *streamconfig.Filter = flow.GetFilter().(*streamconfig.Filter)
+//@ ghost func fltOK(flow internaltypes.FlowI) bool = typeis(flow.GetFilter(), *streamconfig.Filter) && flt(flow) != nil
+
+// hwit[j]: position, in the value list collected for header name Headers[j].Key, of the value of Headers[j] (ghost witness)
+//@ ghost var hwit gmap[int]int
+//@ ghost func hval(kv publictypes.KeyValue) string = kv.GetParamValue().GetString()
+
+// The flow's OWN filter, as the property states it (method, status codes, query parameters, headers; the URL pattern is
+// the trie's part): functions of the flow's filter and of the transaction only.
+//@ ghost spec methodOK(flow internaltypes.FlowI, APIStream publictypes.APIStreamI) bool = (len(flt(flow).Method) == 0 || exists(j, 0, len(flt(flow).Method), flt(flow).Method[j] == APIStream.GetMethod()))
+//@ ghost spec statusOK(flow internaltypes.FlowI, APIStream publictypes.APIStreamI) bool = (APIStream.GetType() == publictypes.StreamTypeRequest || len(flt(flow).StatusCode) == 0 || exists(j, 0, len(flt(flow).StatusCode), flt(flow).StatusCode[j] == APIStream.GetResponse().GetStatus()))
+//@ ghost spec queryOK(flow internaltypes.FlowI, APIStream publictypes.APIStreamI) bool = (APIStream.GetType() == publictypes.StreamTypeResponse || forall(j, 0, len(flt(flow).QueryParams), APIStream.GetRequest().DoesQueryParamExist(flt(flow).QueryParams[j].Key) && (flt(flow).QueryParams[j].GetParamValue() == nil || APIStream.GetRequest().DoesQueryParamValueMatch(flt(flow).QueryParams[j].Key, flt(flow).QueryParams[j].GetParamValue().GetString()))))
+//@ ghost spec headersOK(flow internaltypes.FlowI, APIStream publictypes.APIStreamI) bool = (APIStream.GetType() == publictypes.StreamTypeResponse || forall(j, 0, len(flt(flow).Headers), exists(m, 0, len(flt(flow).Headers), flt(flow).Headers[m].Key == flt(flow).Headers[j].Key && APIStream.DoesHeaderValueMatch(flt(flow).Headers[j].Key, hval(flt(flow).Headers[m])))))
+//@ ghost spec ownFilterOK(flow internaltypes.FlowI, APIStream publictypes.APIStreamI) bool = headersOK(flow, APIStream) && statusOK(flow, APIStream) && methodOK(flow, APIStream) && queryOK(flow, APIStream)
+
+// "A flow is applied only if the transaction satisfies the flow's OWN filter": each qualification is a function of the
+// flow's own filter and the transaction, nothing else (in particular not of the node or of other flows).
+//@ func (*FilterNode).isMethodQualified
+//@   prop C03
+//@   requires fltOK(flow)
+//@   modifies nothing
+//@   loop 1 modifies nothing
+//@   loop 1 invariant[no-match-yet] forall(j, 0, idx1, flt(flow).Method[j] != APIStream.GetMethod())
+//@   ensures[own-filter] result <==> methodOK(flow, APIStream)
+
+//@ func (*FilterNode).isStatusCodeQualified
+//@   prop C03
+//@   requires fltOK(flow)
+//@   modifies nothing
+//@   loop 1 modifies nothing
+//@   loop 1 invariant[no-match-yet] forall(j, 0, idx1, flt(flow).StatusCode[j] != APIStream.GetResponse().GetStatus())
+//@   ensures[own-filter] result <==> statusOK(flow, APIStream)
+
+//@ func (*FilterNode).isQueryParamsQualified
+//@   prop C03
+//@   requires fltOK(flow)
+//@   modifies nothing
+//@   loop 1 modifies nothing
+//@   loop 1 invariant[all-so-far] forall(j, 0, idx1, APIStream.GetRequest().DoesQueryParamExist(flt(flow).QueryParams[j].Key) && (flt(flow).QueryParams[j].GetParamValue() == nil || APIStream.GetRequest().DoesQueryParamValueMatch(flt(flow).QueryParams[j].Key, flt(flow).QueryParams[j].GetParamValue().GetString())))
+//@   ensures[own-filter] result <==> queryOK(flow, APIStream)
+
+
+//@ func (*FilterNode).isHeaderValueValid
+//@   prop C03
+//@   modifies nothing
+//@   loop 1 modifies nothing
+//@   loop 1 invariant[no-match-yet] forall(j, 0, idx1, !APIStream.DoesHeaderValueMatch(headerKey, headerValues[j]))
+//@   ensures[any-value] result <==> exists(j, 0, len(headerValues), APIStream.DoesHeaderValueMatch(headerKey, headerValues[j]))
+
+// Header qualification: every header name the flow's own filter lists must carry one of the values the filter lists
+// for that name.
+//@ func (*FilterNode).isHeadersQualified
+//@   prop C03
+//@   requires fltOK(flow)
+//@   modifies hwit
+//@   allocates map
+//@   loop 1 modifies mapof(headerMap)
+//@   loop 1 invariant[keys] forall(k, string, in(k, headerMap) <==> exists(j, 0, idx1, flt(flow).Headers[j].Key == k))
+//@   loop 1 invariant[values-sound] forall(k, string, in(k, headerMap) ==> forall(v, 0, len(headerMap[k]), exists(j, 0, idx1, flt(flow).Headers[j].Key == k && hval(flt(flow).Headers[j]) == headerMap[k][v])))
+//@   loop 1 modifies hwit
+//@   loop 1 do hwit[idx1-1] = len(headerMap[flt(flow).Headers[idx1-1].Key]) - 1
+//@   loop 1 invariant[values-complete] forall(j, 0, idx1, 0 <= hwit[j] && hwit[j] < len(headerMap[flt(flow).Headers[j].Key]) && hval(flt(flow).Headers[j]) == headerMap[flt(flow).Headers[j].Key][hwit[j]])
+//@   loop 1 hint[appended] len(headerMap[flt(flow).Headers[idx1-1].Key]) > 0 && headerMap[flt(flow).Headers[idx1-1].Key][len(headerMap[flt(flow).Headers[idx1-1].Key])-1] == hval(flt(flow).Headers[idx1-1])
+//@   loop 2 modifies nothing
+//@   loop 2 invariant[all-so-far] forall(k, string, in(k, seen2) ==> exists(v, 0, len(headerMap[k]), APIStream.DoesHeaderValueMatch(k, headerMap[k][v])))
+//@   ensures[own-filter] result <==> headersOK(flow, APIStream)
+
+//@ func (*FilterNode).validate
+//@   prop C03
+//@   requires fltOK(flow)
+//@   modifies hwit
+//@   allocates map
+//@   ensures[own-filter] result <==> ownFilterOK(flow, apiStream)
+
+// JSONPath expression filters are outside the kernel: only the frame is checked.
+//@ func (*FilterNode).validateExpr
+//@   prop C03
+//@   requires fltOK(flow)
+//@   modifies nothing
+
+// Sampling (SamplePercentage != 0) may drop a qualifying transaction, never admit a non-qualifying one.
+//@ func (*FilterNode).isFlowValid
+//@   prop C03
+//@   requires fltOK(flow)
+//@   modifies hwit
+//@   allocates map
+//@   ensures[only-own-filter] result && flt(flow).Expressions == nil ==> ownFilterOK(flow, apiStream)
+//@   ensures[always-when-satisfied] flt(flow).SamplePercentage == 0 && flt(flow).Expressions == nil && ownFilterOK(flow, apiStream) ==> result
+
+// Selection on one trie node: the selected flows are exactly the node's flows whose own filter accepts the transaction,
+// in the node's order, each once. selSrc[r] is the position in the node's list of the r-th selected flow; selPos[j] the
+// position in the result of the node's j-th flow (ghost witnesses, updated at the end of every iteration).
+//@ ghost var selSrc gmap[int]int
+//@ ghost var selPos gmap[int]int
+//@ ghost var nsel int
+//@ ghost spec plain(flow internaltypes.FlowI) bool = flt(flow).Expressions == nil
+//@ ghost spec unsampled(flow internaltypes.FlowI) bool = flt(flow).SamplePercentage == 0
+
+//@ func (*FilterNode).getUserFlow
+//@   prop C03
+//@   results selected, any
+//@   requires forall(j, 0, len(node.userFlows), fltOK(node.userFlows[j]))
+//@   modifies hwit, selSrc, selPos, nsel
+//@   allocates map
+//@   on entry do nsel = 0
+//@   loop 1 modifies hwit, selSrc, selPos, nsel
+//@   loop 1 do selSrc[nsel] = ite(len(userFlows) > nsel, idx1-1, selSrc[nsel]); selPos[idx1-1] = ite(len(userFlows) > nsel, nsel, -1); nsel = len(userFlows)
+//@   loop 1 invariant[count] 0 <= nsel && nsel == len(userFlows) && nsel <= idx1
+//@   loop 1 invariant[only-own-filter] forall(r, 0, len(userFlows), 0 <= selSrc[r] && selSrc[r] < idx1 && userFlows[r] == node.userFlows[selSrc[r]] && (plain(userFlows[r]) ==> ownFilterOK(userFlows[r], apiStream)))
+//@   loop 1 invariant[in-order] forall(r, 1, len(userFlows), selSrc[r-1] < selSrc[r])
+//@   loop 1 invariant[always-when-satisfied] forall(j, 0, idx1, plain(node.userFlows[j]) && unsampled(node.userFlows[j]) && ownFilterOK(node.userFlows[j], apiStream) ==> 0 <= selPos[j] && selPos[j] < len(userFlows) && userFlows[selPos[j]] == node.userFlows[j])
+//@   ensures[only-own-filter] forall(r, 0, len(selected), 0 <= selSrc[r] && selSrc[r] < len(node.userFlows) && selected[r] == node.userFlows[selSrc[r]] && (plain(selected[r]) ==> ownFilterOK(selected[r], apiStream)))
+//@   ensures[in-order] forall(r, 1, len(selected), selSrc[r-1] < selSrc[r])
+//@   ensures[always-when-satisfied] forall(j, 0, len(node.userFlows), plain(node.userFlows[j]) && unsampled(node.userFlows[j]) && ownFilterOK(node.userFlows[j], apiStream) ==> 0 <= selPos[j] && selPos[j] < len(selected) && selected[selPos[j]] == node.userFlows[j])
+//@   ensures[flag] any <==> len(selected) > 0
+//@   ensures[node-unchanged] node.userFlows == old(node.userFlows)
+
+//@ func (*FilterNode).getSystemFlow
+//@   prop C03
+//@   results selected, any
+//@   requires forall(j, 0, len(node.systemFlowStart), fltOK(node.systemFlowStart[j])) && forall(j, 0, len(node.systemFlowEnd), fltOK(node.systemFlowEnd[j]))
+//@   modifies hwit, selSrc, selPos, nsel
+//@   allocates map
+//@   on entry do nsel = 0
+//@   loop 1 modifies hwit, selSrc, selPos, nsel
+//@   loop 1 do selSrc[nsel] = ite(len(SystemFlowRes) > nsel, idx1-1, selSrc[nsel]); selPos[idx1-1] = ite(len(SystemFlowRes) > nsel, nsel, -1); nsel = len(SystemFlowRes)
+//@   loop 1 invariant[count] 0 <= nsel && nsel == len(SystemFlowRes) && nsel <= idx1
+//@   loop 1 invariant[only-own-filter] forall(r, 0, len(SystemFlowRes), 0 <= selSrc[r] && selSrc[r] < idx1 && SystemFlowRes[r] == systemFlow[selSrc[r]] && (plain(SystemFlowRes[r]) ==> ownFilterOK(SystemFlowRes[r], apiStream)))
+//@   loop 1 invariant[in-order] forall(r, 1, len(SystemFlowRes), selSrc[r-1] < selSrc[r])
+//@   loop 1 invariant[always-when-satisfied] forall(j, 0, idx1, plain(systemFlow[j]) && unsampled(systemFlow[j]) && ownFilterOK(systemFlow[j], apiStream) ==> 0 <= selPos[j] && selPos[j] < len(SystemFlowRes) && SystemFlowRes[selPos[j]] == systemFlow[j])
+//@   ensures[only-own-filter] forall(r, 0, len(selected), 0 <= selSrc[r] && selSrc[r] < len(systemFlow) && selected[r] == systemFlow[selSrc[r]] && (plain(selected[r]) ==> ownFilterOK(selected[r], apiStream)))
+//@   ensures[in-order] forall(r, 1, len(selected), selSrc[r-1] < selSrc[r])
+//@   ensures[always-when-satisfied] forall(j, 0, len(systemFlow), plain(systemFlow[j]) && unsampled(systemFlow[j]) && ownFilterOK(systemFlow[j], apiStream) ==> 0 <= selPos[j] && selPos[j] < len(selected) && selected[selPos[j]] == systemFlow[j])
+//@   ensures[flag] any <==> len(selected) > 0
+//@   ensures[source] (flowType == internaltypes.SystemFlowStart ==> systemFlow == node.systemFlowStart) && (flowType == internaltypes.SystemFlowEnd ==> systemFlow == node.systemFlowEnd) && (flowType != internaltypes.SystemFlowStart && flowType != internaltypes.SystemFlowEnd ==> len(systemFlow) == 0)
+//@   ensures[node-unchanged] node.systemFlowStart == old(node.systemFlowStart) && node.systemFlowEnd == old(node.systemFlowEnd)
